@@ -4,6 +4,7 @@ import (
 	"context"
 	"fmt"
 	"os"
+	"regexp"
 	"strings"
 	"sync"
 	"testing"
@@ -52,7 +53,21 @@ type appCall struct {
 }
 
 // runOnce plays the scenario with the given fault plan and checks the termination/cleanup oracle.
+var goroutineID = regexp.MustCompile(`(?m)^goroutine (\d+) \[`)
+
+// rpcGoroutines returns the ids of goroutines that currently have an rpc frame.
+func rpcGoroutines() map[string]string {
+	out := map[string]string{}
+	for _, g := range strings.Split(pbt.Stacks("capnp/v3/rpc."), "\n\n") {
+		if m := goroutineID.FindStringSubmatch(g); m != nil {
+			out[m[1]] = g
+		}
+	}
+	return out
+}
+
 func runOnce(c Case, faults map[int]int) (*outcome, error) {
+	before := rpcGoroutines() // leftovers of earlier (failed) executions in this process are not this run's business
 	w := rpcsim.NewWire()
 	for k, v := range faults {
 		w.Faults[k] = v
@@ -251,7 +266,12 @@ func runOnce(c Case, faults map[int]int) (*outcome, error) {
 	t0 := time.Now()
 	var left string
 	for {
-		left = pbt.Stacks("capnp/v3/rpc.")
+		left = ""
+		for id, g := range rpcGoroutines() {
+			if _, old := before[id]; !old {
+				left += g + "\n\n"
+			}
+		}
 		if left == "" || time.Since(t0) > 10*time.Second {
 			break
 		}
@@ -321,14 +341,21 @@ func bucket(n int) string {
 
 var stepKinds = []string{"app-bootstrap", "app-bootstrap", "app-call", "app-call", "app-pipeline", "app-cancel", "app-release", "peer-bootstrap", "peer-call", "peer-held-call", "peer-finish", "peer-return", "peer-return", "peer-return-exc", "open", "barrier", "barrier"}
 
+// most scenarios start by obtaining the peer's bootstrap capability, so that later call steps have a target
+var firstKinds = []string{"app-bootstrap", "app-bootstrap", "app-bootstrap", "peer-bootstrap", "peer-call", "barrier"}
+
 var _ = pbt.Register(pbt.Spec[Case]{
 	Property: "C09", Name: "fault-enumeration",
 	Rule:     "base scenario = 2-10 drawn steps (local Bootstrap, calls with and without capability params, pipelined calls, cancellations, releases; peer Bootstrap, calls returning at once / held / returning a new capability, Finish, Return with capability or exception; gate openings; barriers). The scenario is first run fault-free to count its transport operations N, then re-run once for EVERY operation index 0..N-1 and every fault kind applicable to that operation (error from NewMessage, error from send, error or EOF from RecvMessage): exhaustive per scenario. Each run ends with Close once / twice / three times / three times concurrently. Oracle per run: every API call returns within the deadline; Done() closes; every pending answer resolves; Bootstrap and calls after Close yield errors; releases return; transport closed exactly once; Conn.mu and the sender lock are free (VerifState hook); no goroutine with an rpc frame survives 10 s. Non-trivial: at least one call was pending when the connection went down.",
-	Quick:    60, Thorough: 600,
+	Quick:    100, Thorough: 1000,
 	Gen: func(t *rapid.T) Case {
 		c := Case{CloseMode: rapid.IntRange(0, 3).Draw(t, "close"), OnlyIndex: -1}
 		for i, n := 0, rapid.IntRange(2, 10).Draw(t, "n"); i < n; i++ {
-			c.Steps = append(c.Steps, Step{K: rapid.SampledFrom(stepKinds).Draw(t, "k"), A: rapid.IntRange(0, 5).Draw(t, "a")})
+			kinds := stepKinds
+			if i == 0 {
+				kinds = firstKinds
+			}
+			c.Steps = append(c.Steps, Step{K: rapid.SampledFrom(kinds).Draw(t, "k"), A: rapid.IntRange(0, 5).Draw(t, "a")})
 		}
 		return c
 	},
